@@ -39,6 +39,20 @@ theorem collect_reaches (g : Graph) (todo : List Str) :
     (∀ n ∈ collect g [] todo, ∀ s ∈ succs g n, s ∈ collect g [] todo) :=
   ⟨collect_contains_roots g todo, collect_closed g todo⟩
 
+/-- **exactly the reachable types**: the walk collects a message iff the roots reach it in the type graph (so it
+neither misses a type a service needs nor drags in one it does not). -/
+theorem collect_exactly_reachable (g : Graph) (todo : List Str) (n : Str) :
+    n ∈ collect g [] todo ↔ Reach g todo n :=
+  mem_collect_iff g todo n
+
+/-- **the set of collected types does not depend on the order of the roots** (the order in which services and
+methods are declared decides the ORDER of discovery only): any two root lists with the same members collect the
+same messages. -/
+theorem collect_set_order_free (g : Graph) (todo todo' : List Str) (h : ∀ x, x ∈ todo' ↔ x ∈ todo) (n : Str) :
+    n ∈ collect g [] todo' ↔ n ∈ collect g [] todo := by
+  rw [mem_collect_iff, mem_collect_iff]
+  exact ⟨Reach.of_roots_subset (fun x hx => (h x).1 hx), Reach.of_roots_subset (fun x hx => (h x).2 hx)⟩
+
 /-- what the regression looked like: the UNGUARDED recursion the mock emitter had before the repair
 never finishes on a self-referential response type, for any amount of fuel (stack). -/
 theorem mock_diverges : ∀ fuel, mockAssign [("A".toList, ["A".toList])] fuel "A".toList = Outcome.outOfFuel :=
